@@ -329,7 +329,9 @@ func run(args []string) error {
 		}
 		return sb.String()
 	}
-	bad := []string{"0", "O", "I", "l", " ", "\x80", "é", "\n", "+", "/", "\x00", "\xff", "世", "\t"}
+	// incl. code points >= U+0100 whose LOW BYTE is an alphabet character (a decoder
+	// that truncates runes to bytes would accept them): U+0138, U+0141, U+0261, U+4E41, U+1F431
+	bad := []string{"0", "O", "I", "l", " ", "\x80", "é", "\n", "+", "/", "\x00", "\xff", "世", "\t", "\u0138", "\u0141", "\u0261", "\u4e41", "\U0001f431", "\u0131", "\u017a"}
 	doDec("", "empty")
 	for i := 0; i < n; i++ {
 		if r.Intn(longEvery) == 0 {
